@@ -17,7 +17,11 @@
 (*   as a string prefix: sib2 "out2", sibbak "out.bak", sibdir "out-evil", *)
 (*   sibtxt "output.txt" (they defeat a containment test written as a      *)
 (*   string prefix without a separator; reached through one "..", also     *)
-(*   behind "name/..": SiblingSegs).                                       *)
+(*   behind "name/..": SiblingSegs) | names that are hostile only AFTER a  *)
+(*   transformation an implementation may apply (TransformSegs): whdd      *)
+(*   ".wh..." (whiteout prefix + ".."), whdot ".wh..", wh ".wh.", whopq    *)
+(*   ".wh..wh..opq", whxf ".wh.xf", ddsp ".. " (trailing space), dots3     *)
+(*   "...", tdot "nm." (trailing dot); bslash above is of the same kind.   *)
 (*                                                                         *)
 (* Mirrors (operator <- code):                                             *)
 (*   Res / CleanRooted / CleanRel / Join  <- path.Clean, filepath.Join     *)
@@ -44,6 +48,8 @@ CONSTANTS TitleClean,       \* "rooted" = path.Clean("/"+title) (the code) | "st
                             \* target stays lexically inside | "raw" = created unconditionally
           ExtractGuard,     \* "reroot" = filepath.Join(path, Clean("/"+name)) (the code) | "strprefix" = Join(path, name) and
                             \* refuse unless strings.HasPrefix(result, path) - no separator (seeded C20-4)
+          Whiteout,         \* "none" = whiteout markers are ordinary names (the code) | "strip" = an entry whose cleaned base name
+                            \* starts with ".wh." removes Join(Dir(fn), name without the prefix) (seeded C20-6)
           DeleteValidates,  \* TRUE = ocidir.ManifestDelete validates the reference digest first (the code since fix
                             \* 3b8373e; default of every configuration) | FALSE = the variant found originally (S15):
                             \* no Validate when the caller supplies the manifest (kept as a switch: C20_mc_s15.cfg,
@@ -121,7 +127,13 @@ SeqsOver(alpha, lo, hi) == UNION {[1..k -> alpha] : k \in lo..hi}
 SibPrefixes == {<<"dotdot">>, <<"dot", "dotdot">>, <<"name", "dotdot", "dotdot">>, <<"xdir", "dotdot", "dotdot">>}
 SiblingSegs == {pre \o <<c>> \o post : pre \in SibPrefixes, c \in SibClasses, post \in {<<>>, <<"name">>}}
 IsSibling(segs) == \E i \in 1..Len(segs) : segs[i] \in SibClasses
-NameSegs == SeqsOver(SegClasses, 0, MaxFull) \cup SeqsOver(CoreClasses, MaxFull + 1, MaxCore) \cup SiblingSegs
+\* names that become hostile only through a transformation (prefix stripping, trimming, separator conversion)
+TransformClasses == {"whdd", "whdot", "wh", "whopq", "whxf", "ddsp", "dots3", "tdot"}
+TPrefixes == {<<>>, <<"dot">>, <<"name", "dotdot">>, <<"xdir">>, <<"dotdot", "dotdot">>}
+TransformSegs == {pre \o <<c>> : pre \in TPrefixes, c \in TransformClasses} \cup {<<c, "name">> : c \in TransformClasses}
+IsTransform(segs) == \E i \in 1..Len(segs) : segs[i] \in TransformClasses
+Special2(segs) == IsSibling(segs) \/ IsTransform(segs)
+NameSegs == SeqsOver(SegClasses, 0, MaxFull) \cup SeqsOver(CoreClasses, MaxFull + 1, MaxCore) \cup SiblingSegs \cup TransformSegs
 HostileNames == [segs : NameSegs, lead : {0, 1}, trail : {0, 1}]
 \* the assembled string is  (lead ? "/" : "") ++ join(segs, "/") ++ (trail ? "/" : "")
 StrEmpty(x) == x.lead = 0 /\ x.trail = 0 /\ (x.segs = <<>> \/ x.segs = <<"empty">>)
@@ -197,9 +209,16 @@ ApplyAccepted(fs, base, e, fn) ==
             THEN [fs |-> Put(fs, [p |-> p, k |-> "hard", t |-> tp, abs |-> 0]), touched |-> {p, tp}]   \* the target's inode gets a new name
             ELSE [fs |-> fs, touched |-> {}]
        [] OTHER -> [fs |-> fs, touched |-> {}]             \* fifo, device, ...: header types the loop ignores
+\* whiteout markers (not in the code): what is left of the base name after ".wh." is joined to the marker's folder, unchecked
+WhMarker(c) == c \in {"whdd", "whdot", "wh", "whopq", "whxf"}
+WhStrip(c) == CASE c = "whdd" -> <<"dotdot">> [] c = "whdot" -> <<"dot">> [] c = "wh" -> <<>> [] c = "whxf" -> <<"xfile">> [] OTHER -> <<c>>
 ApplyEntry(fs, base, e) ==
   LET t == EntryTarget(base, e.n) IN
-  IF t.ok THEN ApplyAccepted(fs, base, e, t.fn) @@ [halt |-> FALSE]
+  IF t.ok /\ Whiteout = "strip" /\ t.fn # <<>> /\ WhMarker(Last(t.fn))
+  THEN IF Last(t.fn) = "whopq" THEN [fs |-> fs, touched |-> {}, halt |-> FALSE]
+       ELSE LET tgt == Join(Front(t.fn), WhStrip(Last(t.fn))) IN          \* os.RemoveAll(tgt)
+            [fs |-> {n \in fs : ~IsPrefix(tgt, n.p)}, touched |-> {tgt}, halt |-> FALSE]
+  ELSE IF t.ok THEN ApplyAccepted(fs, base, e, t.fn) @@ [halt |-> FALSE]
   ELSE [fs |-> fs, touched |-> {}, halt |-> TRUE]          \* "tar entry is outside of the extract path": Extract returns
 
 \* ------------------------------------------------------------------ OCI layout (scheme/ocidir)
@@ -304,7 +323,7 @@ LayerTar == << Ent("dir", <<"d">>, <<>>, 0), Ent("reg", <<"d", "f">>, <<>>, 0), 
                Ent("reg", <<"pwn">>, <<>>, 0),
                Ent("reg", <<"dotdot", "sib2">>, <<>>, 0), Ent("dir", <<"dotdot", "sibdir">>, <<>>, 0),       \* siblings of the
                Ent("reg", <<"dotdot", "sibdir", "f">>, <<>>, 0), Ent("reg", <<"d", "dotdot", "dotdot", "sibtxt">>, <<>>, 0),  \* extract dir
-               Ent("reg", <<"dotdot", "victim">>, <<>>, 0) >>
+               Ent("reg", <<"dotdot", "victim">>, <<>>, 0), Ent("reg", <<"whdd">>, <<>>, 0) >>
 ArtScenarios == {Scn("art", n, u, s, <<>>, "-", "-", "-", "-", 0, "-") : n \in HostileNames, u \in {0, 1}, s \in {0, 1}} \cup
   \* no title: the file is named after the layer digest found in the (untrusted) manifest
   {Scn("art", NoName, u, s, <<>>, "-", d.c, "layerdigest", "-", 0, "-") : d \in DigestClasses, u \in {0, 1}, s \in {0, 1}}
@@ -316,10 +335,13 @@ TarScenarios ==
        "-", "-", "-", "-", 0, "-") : n \in HostileNames, k \in {"dir", "reg"}} \cup
   \* an entry of a type the code ignores (fifo; the driver also uses it for device nodes)
   {Scn("tar", n, 0, 0, <<Ent("fifo", n.segs, <<>>, 0)>>, "-", "-", "-", "-", 0, "-") :
-     n \in {m \in HostileNames : (Len(m.segs) \in 1..2 \/ IsSibling(m.segs)) /\ m.trail = 0}} \cup
+     n \in {m \in HostileNames : (Len(m.segs) \in 1..2 \/ Special2(m.segs)) /\ m.trail = 0}} \cup
+  \* every other entry type under a hostile name: character device, symbolic link and hard link (to the existing file)
+  {Scn("tar", n, 0, 0, <<Ent(k, n.segs, IF k = "chr" THEN <<>> ELSE <<"xfile">>, 0)>>, "-", "-", "-", "-", 0, "-") :
+     n \in {m \in HostileNames : (Len(m.segs) = 1 \/ Special2(m.segs)) /\ m.trail = 0 /\ m.lead = 0}, k \in {"chr", "sym", "hard"}} \cup
   \* a file entry alone (no parent directory entry that an entry guard could trip over first)
   {Scn("tar", n, 0, 0, <<Ent("reg", n.segs, <<>>, 0)>>, "-", "-", "-", "-", 0, "-") :
-     n \in {m \in HostileNames : (Len(m.segs) \in 1..2 \/ IsSibling(m.segs)) /\ m.trail = 0}}
+     n \in {m \in HostileNames : (Len(m.segs) \in 1..2 \/ Special2(m.segs)) /\ m.trail = 0}}
 \* ... and link archives: up to two link entries followed by a file or directory written through them
 LinkNames == {<<"a">>, <<"b">>, <<"xdir", "a">>}
 LinkTargets == {<<"dot">>, <<"dotdot">>, <<"a", "dotdot">>, <<"b", "dotdot">>, <<"dotdot", "victim">>, <<"dotdot", "dotdot">>,
@@ -337,7 +359,7 @@ LinkScenarios == {Scn("lnk", NoName, 0, 0, a, "-", "-", "-", "-", 0, "-") : a \i
 \* (iii) ImageImport: the hostile name appears as an extra entry, as a blob path of the docker manifest.json, or as
 \* the name under which a referenced blob is stored in the tar
 ImportPlaces == {"extra_reg", "extra_dir", "extra_sym", "extra_hard", "docker_config", "docker_layer", "oci_blobname"}
-ImpNames == {n \in HostileNames : Len(n.segs) <= 2 \/ IsSibling(n.segs)}
+ImpNames == {n \in HostileNames : Len(n.segs) <= 2 \/ Special2(n.segs)}
 ImportScenarios == {Scn("imp", n, 0, 0, <<>>, "ImageImport", "-", p, "-", 0, "-") : n \in ImpNames, p \in ImportPlaces} \cup
                    {Scn("imp", NoName, 0, 0, <<>>, "ImageImport", d.c, p, "-", 0, "-") : d \in DigestClasses, p \in {"oci_index", "oci_layer", "oci_child"}}
 
